@@ -348,8 +348,8 @@ fn worker(ctx: &WorkerCtx) -> Result<(), Fail> {
     }
     // boards assembled by builder histories (incl. rejected placements and removals) must hash
     // like the parser's board of the same position: the hash is a function of the position only
-    run_proptest(ctx, 44, ctx.share(ctx.tier.pick(40_000, 1_000_000)), crate::c05_extra::builder_strategy(), |c| json!({"builder": c}), crate::c05_extra::builder_case)?;
-    run_proptest(ctx, 4, ctx.share(ctx.tier.pick(40_000, 1_500_000)), play_strategy(60, 28), case_json, run_case)
+    run_proptest(ctx, 44, ctx.share(ctx.tier.pick(100_000, 1_000_000)), crate::c05_extra::builder_strategy(), |c| json!({"builder": c}), crate::c05_extra::builder_case)?;
+    run_proptest(ctx, 4, ctx.share(ctx.tier.pick(100_000, 1_500_000)), play_strategy(60, 28), case_json, run_case)
 }
 
 fn replay(v: &Value) -> Result<(), String> {
